@@ -169,7 +169,8 @@ function obs() {
         if (b2 !== "true,false,true,string,string") props._err = "function brand of the proxy: " + b2;
       }
     }
-    var fe = CFG.kind === "global" ? null : forInCheck(o);
+    // (only where a link of the chain is an exotic object that answers [[OwnPropertyKeys]] / [[GetOwnProperty]] itself: the walk doubles the cost of an observation)
+    var fe = /^(proxy|goproxy|gomap)/.test(CFG.kind) || /^(proxy|goproxy|gomap)/.test(CFG.kind2 || "") ? forInCheck(o) : null;
     if (fe) props._err = fe;
     var ord = ourKeys(o);
     // the model keeps creation order; the observable order is OwnKeys: compare as a multiset here, the order via the ownkeys action
